@@ -189,6 +189,14 @@ def run(tier='quick'):
                    floor=4)
     from . import extra
     extra.updates_have_rows(prog, cg, eff, chk, R13)
+    R15 = chk.rule('R15', 'the fixed-width primitives every blob field passes through are exact for every value (rule L1 of '
+                          'C02: byte placement, two 32-bit halves by shifts 0 and 32, no sign extension or rounding of a half)',
+                   floor=14)
+    extra.primitives_exact(prog, chk, R15)
+    R16 = chk.rule('R16', 'the shared compressor writes one complete deflate stream for every payload size (rule S6 of C03): '
+                          'a snapshot whose blob is an exact multiple of the chunk size is not stored as a truncated stream',
+                   floor=2)
+    extra.deflate_complete(prog, chk, R16)
     return chk.finish('statement-level analysis of the 1.x storage layer and the 2.x track table; value-flow '
                       'interpretation (sa/valueflow.py) of snapshot(), update() and create_track() of both '
                       'generations with every repository callee inlined down to the SQL statements, once per '
